@@ -357,7 +357,7 @@ Definition last_opt {A} (l : list A) : option A :=
 
 (* ComponentPatternFromStr.  Unchecked operations carry an explicit PPanic branch:
      s[0] (guarded by len(s) <= 0), s[len(s)-1], s[1:len(s)-1], strs[0]/strs[1] after strings.Split. *)
-Definition comp_pattern_from_str (s : str) : pres cpat :=
+Definition comp_pattern_from_str_with (split : N -> str -> str -> list str) (s : str) : pres cpat :=
   let plain := match comp_from_str s with POk c => POk (CPComp c) | PErr => PErr | PPanic => PPanic end in
   if (length s <=? 0)%nat then plain else
   match s with
@@ -371,7 +371,7 @@ Definition comp_pattern_from_str (s : str) : pres cpat :=
       if (length s <? 2)%nat then PPanic                (* s[1:len(s)-1] with 1 > len(s)-1 *)
       else
         let inner := firstn (length s - 2) (skipn 1 s) in
-        let strs := split_on 61 inner [] in
+        let strs := split 61 inner [] in
         if (2 <? length strs)%nat then PErr else
         if (length strs =? 2)%nat then
           match strs with
@@ -390,30 +390,35 @@ Definition comp_pattern_from_str (s : str) : pres cpat :=
     end
   end.
 
-Fixpoint cpats_from_strs (l : list str) : pres npat :=
+Definition comp_pattern_from_str : str -> pres cpat := comp_pattern_from_str_with split_on.
+
+Fixpoint cpats_from_strs_with (cp : str -> pres cpat) (l : list str) : pres npat :=
   match l with
   | [] => POk []
-  | s :: r => match comp_pattern_from_str s with
-              | POk c => match cpats_from_strs r with POk n => POk (c :: n) | e => e end
+  | s :: r => match cp s with
+              | POk c => match cpats_from_strs_with cp r with POk n => POk (c :: n) | e => e end
               | PErr => PErr
               | PPanic => PPanic
               end
   end.
+Definition cpats_from_strs : list str -> pres npat := cpats_from_strs_with comp_pattern_from_str.
 
 (* NamePatternFromStr (with the len(strs) > 0 guard of commit 2e94774) *)
-Definition name_pattern_from_str (s : str) : pres npat :=
-  let strs := split_on 47 s [] in
+Definition name_pattern_from_str_with (split : N -> str -> str -> list str) (s : str) : pres npat :=
+  let strs := split 47 s [] in
   match strs with
   | [] => PPanic                                         (* strs[0] *)
   | s0 :: r =>
     let strs1 := if (length s0 =? 0)%nat then r else strs in
+    let cps := cpats_from_strs_with (comp_pattern_from_str_with split) in
     if (0 <? length strs1)%nat then
       match last_opt strs1 with
       | None => PPanic                                   (* strs[len(strs)-1] on an empty slice *)
-      | Some l => cpats_from_strs (if (length l =? 0)%nat then removelast strs1 else strs1)
+      | Some l => cps (if (length l =? 0)%nat then removelast strs1 else strs1)
       end
-    else cpats_from_strs strs1
+    else cps strs1
   end.
+Definition name_pattern_from_str : str -> pres npat := name_pattern_from_str_with split_on.
 
 (* the same function without that guard = the code before the fix; kept to show the guard is needed *)
 Definition name_pattern_from_str_unguarded (s : str) : pres npat :=
@@ -450,3 +455,26 @@ Fixpoint npat_cmp (a b : npat) : comparison :=
   | _, [] => Gt
   | c :: a', d :: b' => match cpat_cmp c d with Eq => npat_cmp a' b' | r => r end
   end.
+
+(* ---- linear-time variants for the extracted runner (List.rev of the standard library is quadratic; a 65536-byte
+   component would take a minute).  FastOk.v proves them equal to the functions above. ---- *)
+Fixpoint split_on_f (sep : N) (s : str) (cur : str) : list str :=
+  match s with
+  | [] => [rev_append cur []]
+  | c :: r => if c =? sep then rev_append cur [] :: split_on_f sep r [] else split_on_f sep r (c :: cur)
+  end.
+Definition name_from_str_with (split : N -> str -> str -> list str) (s : str) : pres name :=
+  let strs := split 47 s [] in
+  match strs with
+  | [] => PPanic
+  | s0 :: r =>
+    let strs1 := if (length s0 =? 0)%nat then r else strs in
+    let strs2 := match rev strs1 with
+                 | [] => strs1
+                 | l :: pre => if (length l =? 0)%nat then rev pre else strs1
+                 end in
+    comps_from_strs strs2
+  end.
+Definition name_from_str_f : str -> pres name := name_from_str_with split_on_f.
+Definition comp_pattern_from_str_f : str -> pres cpat := comp_pattern_from_str_with split_on_f.
+Definition name_pattern_from_str_f : str -> pres npat := name_pattern_from_str_with split_on_f.
